@@ -337,7 +337,7 @@ def run(F, rep):
 
     # ------------------------------------------------------------------ N: nullable results
     import nullres
-    nullres.run(F, rep, 'C01.N1', kinds=('rootNode', 'importSource.model', 'units(name)', 'variable(name)', 'component(name)', 'ast.parent', 'owningComponent', 'owningModel', 'parent', 'mathmlChildNode'))
+    nullres.run(F, rep, 'C01.N1', kinds=('rootNode', 'importSource.model', 'units(name)', 'variable(name)', 'component(name)', 'ast.parent', 'owningComponent', 'owningModel', 'parent', 'mathmlChildNode', 'variable.units'))
 
     # ------------------------------------------------------------------ V: what the validator checks is what the later stages use
     rep.rule('C01.V1', 'the text of a <ci>/<cn> token is obtained through the comment-skipping accessors (nonCommentChildNode/-Count, mathmlChild*) both where the validator checks the variable name and where the analyser builds its AST: '
